@@ -788,6 +788,9 @@ pub fn run(ctx: &Ctx) {
             G1Mul { p: Some(G1Rep { k: gen::hex32(&BigUint::from(77u32)), lambda: gen::hex32(&BigUint::from(2u32)) }), scalar: Hex(expand_bytes(0xc13e, 32)) },
         ]
     }, check_g1_mul);
+    ctx.cold("cold_start_concurrent", "eight threads of a fresh process call G1 g_mul / point_mul for the first time at the same moment", || {
+        (0..2u64).map(|r| (0..8u64).map(|i| G1Mul { p: if i % 2 == 0 { None } else { Some(G1Rep { k: gen::hex32(&BigUint::from(3 + i)), lambda: gen::hex32(&BigUint::from(1 + i % 3)) }) }, scalar: Hex(expand_bytes((r << 8 | i) ^ 0xc13a, 32)) }).collect::<Vec<_>>()).collect::<Vec<_>>()
+    }, |steps: &Vec<G1Mul>| par(steps, check_g1_mul));
     ctx.cold("cold_start_g2_mul", "G2 fixed-base and variable-base multiplication as the first library operation of a fresh process", || {
         vec![
             G2Mul { p: None, scalar: Hex(expand_bytes(0xc13f, 32)) },
